@@ -524,3 +524,40 @@ Proof.
   split; [exact onset_new_weight_stale|]. split; [exact F_mix_fails_old_weight | exact F_mix_fails_new_weight].
 Qed.
 Print Assumptions C01_weighted_examples.
+
+(** * n-d values: per-individual values with a trailing shape, [revert(subset, right_broadcasting)] both ways, multi-parent
+      entry-wise functions of plain and of WEIGHTED parents (State/StateNdExec.v, StateNdFmixProofs.v)
+
+    [nval] = nested lists of exact atoms, plain or weighted (any non-negative weights, [weight=None]); [nsem] = [State.put] +
+    [_select] restricted to the documented contract (one mask entry per index of the axis the mask is aligned on).  Tie: the toy
+    histories on graphs whose per-individual variables have shape (n, 2), (n, 3), (n, 1), (n, 2, 2) — scoped blocks included —
+    are run through [step] at [nsem] inside Coq on every run ([check_ncase_with], [check_nscase_with]). *)
+From Leaspy Require Import State.StateNdExec State.StateNdExecProofs State.StateNdFmixProofs.
+
+(** [F_mix] PROVED for every toy graph whose per-individual derived nodes are entry-wise: affine maps of ANY number of parents,
+    log2, the weighted one-parent maps, the two-parent map of weighted parents — for both alignments of the mask and any
+    trailing shape.  No hypothesis on node functions is left for the toy vocabulary. *)
+Theorem C01_F_mix_nd :
+  forall l : list dspec, entrywise_axis_b l = true -> F_mix (mk_ngraph l) nsem.
+Proof. exact F_mix_entrywise_nd. Qed.
+Print Assumptions C01_F_mix_nd.
+
+Theorem C01_never_stale_nd :
+  forall l : list dspec,
+  gwf_b (mk_ngraph l) = true -> entrywise_axis_b l = true ->
+  forall ops, MaskDisciplined (mk_ngraph l) nsem (init_store (mk_ngraph l)) ops ->
+  forall k i st,
+    nth_error (fst (run_now (mk_ngraph l) nsem (init_store (mk_ngraph l)) ops)) k = Some st ->
+    snd (step_now (mk_ngraph l) nsem (fst (run_now (mk_ngraph l) nsem (init_store (mk_ngraph l)) ops)) (Get k i)) =
+      match scratch (mk_ngraph l) (values st) i with Some v => Ok v | None => Err InputError end.
+Proof. exact never_stale_nd. Qed.
+Print Assumptions C01_never_stale_nd.
+
+(** non-vacuity: (3, 2) values, a weight computed from the variable, a two-parent function of weighted parents, a two-parent affine
+    map; individuals 1 and 2 rejected, then column 0 rejected ([right_broadcasting=False]): both histories meet the precondition and
+    every read afterwards is the from-scratch value; with the weight of one side kept for all rows the same history reads stale
+    values; the mask aligned on the wrong side reverts individuals where the code refuses the call *)
+Definition C01_nd_examples_statement := ltac:(let t := type of nd_examples in exact t).
+Theorem C01_nd_examples : C01_nd_examples_statement.
+Proof. exact nd_examples. Qed.
+Print Assumptions C01_nd_examples.
